@@ -968,3 +968,207 @@ pub fn t_across_keyed<'a>(p: &P<'a>) {
         .assume_ordering::<TotalOrder>(nondet!(/** observation: multiset per tick */))
         .embedded_output("out1");
 }
+
+// ---------------------------------------------------------------------------------------------
+// C32 (cont.): unique() / keys() turn an AtLeastOnce stream into ExactlyOnce without a nondet!,
+// at top level and inside an atomic region; the duplicate may arrive in a later tick
+// ---------------------------------------------------------------------------------------------
+
+pub fn x_unique_top<'a>(p: &P<'a>) {
+    obs_bag(weak(p, "in0").unique(), "out0");
+    // ordered, at-least-once: first occurrences in order
+    p.embedded_input::<i64>("in1")
+        .weaken_retries::<AtLeastOnce>()
+        .unique()
+        .embedded_output("out1");
+}
+
+pub fn x_unique_atomic_top<'a>(p: &P<'a>) {
+    obs_bag(weak(p, "in0").atomic().unique().end_atomic(), "out0");
+    p.embedded_input::<i64>("in1")
+        .weaken_retries::<AtLeastOnce>()
+        .atomic()
+        .unique()
+        .end_atomic()
+        .embedded_output("out1");
+}
+
+pub fn x_keys_top<'a>(p: &P<'a>) {
+    let ks = p
+        .embedded_input::<(i64, i64)>("in0")
+        .weaken_ordering::<NoOrder>()
+        .weaken_retries::<AtLeastOnce>()
+        .into_keyed();
+    obs_bag(ks.clone().keys(), "out0");
+    obs_bag(ks.atomic().keys().end_atomic(), "out1");
+}
+
+// ---------------------------------------------------------------------------------------------
+// C33 (cont.): the promise is read from the collection's TYPE (KeyedSingletonBound::bound_kind())
+// at staging time and travels with every observed entry as a code:
+// 0 = Unbounded (nothing promised), 1 = MonotonicKeys, 2 = MonotonicValue, 3 = BoundedValue, 4 = Bounded
+// ---------------------------------------------------------------------------------------------
+
+pub fn obs_typed_keyed<'a, K: Clone, V: Clone, B: KeyedSingletonBound<ValueBound = Unbounded>>(
+    s: KeyedSingleton<K, V, P<'a>, B>,
+    name: &str,
+) {
+    use hydro_lang::compile::ir::KeyedSingletonBoundKind;
+    let code: usize = match B::bound_kind() {
+        KeyedSingletonBoundKind::Unbounded => 0,
+        KeyedSingletonBoundKind::MonotonicKeys => 1,
+        KeyedSingletonBoundKind::MonotonicValue => 2,
+        KeyedSingletonBoundKind::BoundedValue => 3,
+        KeyedSingletonBoundKind::Bounded => 4,
+    };
+    let tick = s.location().tick();
+    s.snapshot(&tick, nondet!(/** terminal observation adapter: per-tick snapshot */))
+        .entries()
+        .map(q!(move |(k, v)| (code, k, v)))
+        .all_ticks()
+        .assume_ordering::<TotalOrder>(nondet!(/** terminal observation adapter: multiset per tick */))
+        .embedded_output(name);
+}
+
+pub fn m_reduce_watermark<'a>(p: &P<'a>) {
+    // per-window sums with watermark-based garbage collection (keys below the watermark are
+    // dropped) and views derived from them: whatever bound their types carry must be truthful
+    let tick = p.tick();
+    let low_watermark = p
+        .embedded_input::<i64>("in1")
+        .batch(&tick, nondet!(/** watermark timing is the schedule */))
+        .max();
+    let sums = p
+        .embedded_input::<(i64, i64)>("in0")
+        .into_keyed()
+        .reduce_watermark(low_watermark, q!(|acc, v| *acc += v));
+    obs_typed_keyed(sums.clone(), "out0");
+    obs_typed_keyed(sums.clone().map(q!(|s| s * 2)), "out1");
+    obs_typed_keyed(sums.map_with_key(q!(|(k, s)| k * 100 + s)), "out2");
+}
+
+pub fn m_typed_folds<'a>(p: &P<'a>) {
+    let ks = p.embedded_input::<(i64, i64)>("in0").into_keyed();
+    let f = ks.clone().fold(q!(|| 0i64), q!(|acc, v| *acc = *acc * 2 + v));
+    obs_typed_keyed(f.clone(), "out0");
+    obs_typed_keyed(f.map(q!(|v| v - 1)), "out1");
+    let c = ks.clone().value_counts();
+    obs_typed_keyed(c.clone(), "out2");
+    obs_typed_keyed(c.map_with_key(q!(|(k, n)| k + n as i64)), "out3");
+    obs_typed_keyed(ks.reduce(q!(|acc, v| *acc = *acc * 3 + v)), "out4");
+}
+
+// ---------------------------------------------------------------------------------------------
+// C41 (cont.): by_ref() / by_mut() handles on the same collection in every order
+// ---------------------------------------------------------------------------------------------
+
+fn total<'a>(p: &P<'a>) -> Singleton<i64, P<'a>, Bounded> {
+    p.source_iter(q!(0..5i64)).fold(q!(|| 0i64), q!(|acc: &mut i64, x| *acc += x))
+}
+
+pub fn r_ref_only<'a>(p: &P<'a>) {
+    let t = total(p);
+    let r = t.by_ref();
+    p.source_iter(q!(1..=3i64)).map(q!(|x| x + *r)).embedded_output("out0");
+    p.source_iter(q!(4..=5i64)).filter(q!(|x| *x > *r)).embedded_output("out1");
+    t.into_stream().embedded_output("out2");
+}
+
+pub fn r_mut_only<'a>(p: &P<'a>) {
+    let t = total(p);
+    let m = t.by_mut();
+    p.source_iter(q!(1..=3i64))
+        .map(q!(|x| {
+            *m += x;
+            *m
+        }))
+        .embedded_output("out0");
+    t.into_stream().embedded_output("out1");
+}
+
+pub fn r_ref_then_mut<'a>(p: &P<'a>) {
+    let t = total(p);
+    let r = t.by_ref();
+    p.source_iter(q!(1..=3i64)).map(q!(|x| x + *r)).embedded_output("out0");
+    let m = t.by_mut();
+    p.source_iter(q!(1..=3i64))
+        .map(q!(|x| {
+            *m += x;
+            *m
+        }))
+        .embedded_output("out1");
+    t.into_stream().embedded_output("out2");
+}
+
+pub fn r_mut_then_ref<'a>(p: &P<'a>) {
+    let t = total(p);
+    let m = t.by_mut();
+    p.source_iter(q!(1..=3i64))
+        .map(q!(|x| {
+            *m += x;
+            *m
+        }))
+        .embedded_output("out0");
+    let r = t.by_ref();
+    p.source_iter(q!(1..=3i64)).map(q!(|x| x + *r)).embedded_output("out1");
+    t.into_stream().embedded_output("out2");
+}
+
+pub fn r_ref_mut_ref<'a>(p: &P<'a>) {
+    let t = total(p);
+    let r1 = t.by_ref();
+    p.source_iter(q!(1..=2i64)).map(q!(|x| x + *r1)).embedded_output("out0");
+    let m = t.by_mut();
+    p.source_iter(q!(1..=2i64))
+        .inspect(q!(|x| {
+            *m += *x;
+        }))
+        .embedded_output("out1");
+    let r2 = t.by_ref();
+    p.source_iter(q!(1..=2i64)).map(q!(|x| x * *r2)).embedded_output("out2");
+    t.into_stream().embedded_output("out3");
+}
+
+pub fn r_two_collections<'a>(p: &P<'a>) {
+    let a = total(p);
+    let b = p.source_iter(q!(vec![7i64, 8])).fold(q!(|| 1i64), q!(|acc: &mut i64, x| *acc *= x));
+    let ra = a.by_ref();
+    let mb = b.by_mut();
+    p.source_iter(q!(1..=3i64))
+        .map(q!(|x| {
+            *mb += *ra + x;
+            *mb
+        }))
+        .embedded_output("out0");
+    let ma = a.by_mut();
+    let rb = b.by_ref();
+    p.source_iter(q!(1..=3i64))
+        .map(q!(|x| {
+            *ma += *rb;
+            x + *ma
+        }))
+        .embedded_output("out1");
+    a.into_stream().embedded_output("out2");
+    b.into_stream().embedded_output("out3");
+}
+
+pub fn r_tick_ref_mut<'a>(p: &P<'a>) {
+    // the same inside a tick: a per-tick singleton read, then mutated, then read again
+    let tick = p.tick();
+    let batch = p.embedded_input::<i64>("in0").batch(&tick, nondet!(/** schedule */));
+    let t = batch.clone().fold(q!(|| 0i64), q!(|acc: &mut i64, x| *acc += x));
+    let r = t.by_ref();
+    batch.clone().map(q!(|x| x + *r)).all_ticks().embedded_output("out0");
+    let m = t.by_mut();
+    batch
+        .clone()
+        .map(q!(|x| {
+            *m += 1;
+            x + *m
+        }))
+        .all_ticks()
+        .embedded_output("out1");
+    let r2 = t.by_ref();
+    batch.map(q!(|x| x - *r2)).all_ticks().embedded_output("out2");
+    t.all_ticks().embedded_output("out3");
+}
